@@ -593,11 +593,22 @@ fn mode_args(_args: &[String]) {
         let (probe, reemit) = match expand_one("Display", &item) {
             Exp::Ok(t) => {
                 let ft = t.parse::<TokenStream>().map(flat).unwrap_or_default();
-                let want_pred = "T : derive_more : : core : : fmt : : Debug";
+                // `T: <any path to>::Debug` among the where-predicates (the path's spelling is not the property's concern)
+                let has_pred = ft
+                    .split(" where ")
+                    .nth(1)
+                    .map(|w| w.split(" {").next().unwrap_or(""))
+                    .map(|w| {
+                        w.split(" , ").any(|p| {
+                            let p = p.trim().trim_end_matches(" ,");
+                            p.starts_with("T : ") && (p.ends_with(": : Debug") || p == "T : Debug")
+                        })
+                    })
+                    .unwrap_or(false);
                 let args_flat = flat(ts.clone());
                 let args_flat = args_flat.trim_end_matches(" ,").trim_end_matches(',').to_string();
                 (
-                    if ft.contains(want_pred) { "bound" } else { "nobound" },
+                    if has_pred { "bound" } else { "nobound" },
                     if args_flat.is_empty() || ft.contains(&args_flat) { "verbatim" } else { "altered" },
                 )
             }
